@@ -12,3 +12,6 @@ open PedVerif.Call
 #print axioms WrapperAddsNothing_full_is_false
 #print axioms checkArguments_some_tc
 #print axioms cfg_fallback
+#print axioms cfg_instanceMethod
+#print axioms bound_is_not_instance_method
+#print axioms wrapper_adds_nothing_bound_method
